@@ -519,3 +519,46 @@ def run(ctx, R):
     r194(ctx, R)
     r195(ctx, R)
     r196(ctx, R)
+
+
+def r197(ctx, R):
+    """ensure_sync runs the sync once: guarded by 'not <flag>' under the
+    lock, flag set only after the sync returned."""
+    prog = ctx.prog
+    for q, inner, flag in (
+            (TM + ':ensure_sync', TM + ':_trait_sync', '_TRAITS_SYNCED'),
+            (RCM + ':ensure_sync', RCM + ':_resource_classes_sync',
+             '_RESOURCE_CLASSES_SYNCED')):
+        f = prog.func(q)
+        g = cfgmod.cfg_of(f)
+        calls = C.calls_to(ctx, f, inner)
+        sets = [n for n in own_nodes(f.node) if isinstance(n, ast.Assign)
+                and any(src(t) == flag for t in n.targets)]
+        ok = len(calls) == 1 and len(sets) == 1
+        why = 'calls=%d flag-stores=%d' % (len(calls), len(sets))
+        if ok:
+            cst = C.stmt_of(calls[0])
+            ifs = C.guarding_ifs(cst, f.node)
+            cond = [src(i.test).replace(' ', '') for i, br in ifs
+                    if br == 'body']
+            ok = cond == ['not' + flag] and g.dominates(cst, sets[0]) and \
+                isinstance(sets[0].value, ast.Constant) and \
+                sets[0].value.value is True and C.guarding_ifs(
+                    sets[0], f.node) == ifs
+            # module-level initial value False
+            init = prog.const(f.module.name, flag)
+            ok = ok and init is False
+            why = 'guard %s, flag set after the sync: %s, initial %r' % (
+                cond, g.dominates(cst, sets[0]), init)
+        R.ob('R19.6', '%s:once-flag' % q.split(':')[0].rsplit('.', 1)[1],
+             ok, 'the start-up sync runs when the process-wide flag is '
+             'unset and the flag is raised only after it returned', why,
+             func=f)
+
+
+_run_c19 = run
+
+
+def run(ctx, R):
+    _run_c19(ctx, R)
+    r197(ctx, R)
